@@ -216,3 +216,34 @@ pub fn default_static(ptype: PointType) -> StaticVal {
         time: None,
     }
 }
+
+/// match the event objects of a fragment to ledger entries (oldest-first, ascending preferred);
+/// `also_ok` are ids discarded during the current step (still acceptable in fragments of this step).
+/// Returns the matched ids, or the index of the first object that matches nothing.
+pub fn match_events(ledger: &Ledger, events: &[&Meas], also_ok: &[u64]) -> Result<Vec<u64>, usize> {
+    let mut ids: Vec<u64> = Vec::new();
+    for (i, m) in events.iter().enumerate() {
+        let candidates: Vec<&LedgerEvent> = ledger
+            .events
+            .values()
+            .filter(|e| e.state == EvState::Live || (e.state == EvState::Discarded && also_ok.contains(&e.id)))
+            .filter(|e| !ids.contains(&e.id))
+            .filter(|e| Ledger::matches(e, m))
+            .collect();
+        let last = ids.last().copied();
+        let asc = |e: &&&LedgerEvent| last.map(|l| e.id > l).unwrap_or(true);
+        let found = candidates
+            .iter()
+            .filter(|e| e.state == EvState::Live)
+            .find(asc)
+            .or_else(|| candidates.iter().find(|e| e.state == EvState::Live))
+            .or_else(|| candidates.iter().find(asc))
+            .or_else(|| candidates.first())
+            .copied();
+        match found {
+            Some(e) => ids.push(e.id),
+            None => return Err(i),
+        }
+    }
+    Ok(ids)
+}
